@@ -38,6 +38,10 @@ def custom(tier):
                   ('ts_compact', [T('compact_date')]), ('last', [V('LastBranch'), V('LastCommitHashShort')]),
                   ('last_ts', [V('LastTimestamp')]), ('full_hash', [V('BumpedCommitHash')]), ('context', CTX)]:
         out.append(dict(name='build_' + nm, schema=(base, [], b), cfg=dict(always=['major'], text_len=2)))
+    # long all-digit text: numeric identifiers beyond u64 / u32 must stay well-formed (no leading zeros)
+    for n in (11, 21):
+        out.append(dict(name='extra_branch_digits%d' % n, schema=(base, [V('BumpedBranch')], []), cfg=dict(always=['major', 'bumped_branch'], text_len=n, alphabet=[48, 49, 57])))
+        out.append(dict(name='build_branch_digits%d' % n, schema=(base, [], [V('BumpedBranch')]), cfg=dict(always=['major', 'bumped_branch'], text_len=n, alphabet=[48, 49, 57])))
     if not q:
         out += [dict(name='build_branch_len3', schema=(base, [], [V('BumpedBranch')]), cfg=dict(always=['major'], text_len=3)),
                 dict(name='build_branch_len4', schema=(base, [], [V('BumpedBranch')]), cfg=dict(always=['major'], text_len=4)),
